@@ -118,7 +118,7 @@ def random_history(rng):
         r = rng.random()
         cand = list(range(0, length + 1)) + closed * 3 + [rng.choice(NEVER)]
         if r < 0.25:
-            name = rng.choice(["a", "b", "f0", "d0", "d0/g", "nope/x"])
+            name = rng.choice(["a", "b", "f0", "d0", "d0/g", "nope/x", b"a\x00b", b"\x00"])
             ofl = rng.choice([0, wo.O_CREAT, wo.O_CREAT | wo.O_EXCL, wo.O_TRUNC, wo.O_DIRECTORY])
             dirfd = rng.choice([3, 3, 3] + cand)
             h.open(rng.choice(ABIS) if rng.random() < 0.2 else abi, dirfd, name, ofl, rng.choice([wo.RIGHTS_RW, wo.R_READ, wo.R_WRITE]))
@@ -243,7 +243,7 @@ def compare(h, real, model):
     return None
 
 
-def shrink(exe, d, h, key, budget=6):
+def shrink(exe, d, h, key, budget=40):
     """delta debugging on the real code: drop lines while the same verdict key is produced"""
     cur = h
     for _ in range(budget):
